@@ -183,7 +183,7 @@ TARGETS += [
 
 # which generated files (in build order) + GenEq file each property's harness adds to its FILES
 PROPERTY_FILES = {
-    'C01': (['Gen_bbox', 'Gen_apcore', 'Gen_apshape'], ['C01_GenEq.v', 'C01_GenEq2.v']),
+    'C01': (['Gen_bbox', 'Gen_apcore', 'Gen_apshape'], ['C01_GenEq.v', 'C01_Shape_GenEq.v']),
     'C02': (['Gen_bbox'], ['C02_GenEq.v']),
     'C04': (['Gen_detect'], ['C04_GenEq.v']),
     'C05': (['Gen_segm'], ['C05_GenEq.v']),
